@@ -151,24 +151,33 @@ for kind in ('gz', 'bz2'):
             emit(kind, blob, pname, pdata, cls, expect_ok=True)
     # ---- stream boundary alignment: compressed length of the first stream(s) = r mod 5000
     # (libbz2 reads the file in 5000-byte pieces) and mod 4096/8192
-    hp = [p for p in payloads if p[2] == 'high' and len(p[1]) >= 30000][0]
-    for modulus, residues in ((5000, (0, 1, 2, 4998, 4999)), (4096, (0, 1, 4095)), (100, (0, 1, 99))):
+    hp = [p for p in payloads if p[2] == 'high' and len(p[1]) >= 2 ** 20 - 1][0]
+
+    def first_stream_with_length(target_c, modulus, r):
+        """payload prefix length whose compressed size is = r mod modulus, near target_c bytes:
+        bisection on the (roughly monotone) compressed size, then a scan around that point"""
+        lo, hi = 1, min(len(hp[1]) - 6000, 400000)
+        while lo < hi:
+            mid = (lo + hi) // 2
+            if len(comp(kind, hp[1][:mid], 9)) < target_c:
+                lo = mid + 1
+            else:
+                hi = mid
+        for delta in range(0, 500):
+            for cand in (lo + delta, lo - delta):
+                if cand <= 0 or cand > len(hp[1]) - 6000:
+                    continue
+                c1 = comp(kind, hp[1][:cand], 9)
+                if len(c1) % modulus == r:
+                    return cand, c1
+        return None
+
+    for modulus, residues in ((5000, (0, 1, 2, 3, 4997, 4998, 4999)), (4096, (0, 1, 4095)), (100, (0, 1, 99))):
         for r in residues:
-            for target_total in ((modulus * 2, modulus * 3) if modulus >= 4096 else (modulus * 30,)):
-                # find a first-stream payload length whose compressed size hits the residue
-                found = None
-                base = target_total
-                for delta in range(0, 400):
-                    for cand in (base + delta, base - delta):
-                        if cand <= 0 or cand > len(hp[1]) - 10:
-                            continue
-                        c1 = comp(kind, hp[1][:cand], 9)
-                        if len(c1) % modulus == r:
-                            found = (cand, c1)
-                            break
-                    if found:
-                        break
+            for target_c in ((modulus + r, modulus * 2 + r) if modulus >= 4096 else (modulus * 30 + r,)):
+                found = first_stream_with_length(target_c, modulus, r)
                 if not found:
+                    print('note: no %s first stream with compressed length = %d mod %d' % (kind, r, modulus), file=sys.stderr)
                     continue
                 cand, c1 = found
                 for tail in (1, 300):
